@@ -4,6 +4,7 @@ go 1.23
 
 require (
 	github.com/orbs-network/lean-helix-go v0.0.0
+	github.com/orbs-network/scribe v0.1.0
 	pgregory.net/rapid v1.3.0
 )
 
@@ -12,7 +13,6 @@ require (
 	github.com/orbs-network/gojay v1.3.0 // indirect
 	github.com/orbs-network/govnr v0.2.0 // indirect
 	github.com/orbs-network/membuffers v0.3.2 // indirect
-	github.com/orbs-network/scribe v0.1.0 // indirect
 	github.com/pkg/errors v0.8.1 // indirect
 )
 
